@@ -124,6 +124,44 @@ def make_nested_kw(fam):
     return h
 
 
+def make_sentinel_coll(fam):
+    """UNCHANGED / _if=False on collection-typed attributes (list, dict, set; with a default, a default factory or no
+    default and unset) must be no-ops returning the receiver (the scalar attributes of K1 have their own shard)."""
+    from spec_classes.types.missing import UNCHANGED
+
+    from vf.snapshot import describe, same, snap
+
+    NS = FAMILIES[fam]
+    ATTRS = ["nums", "opts", "vals", "tags", "extras", "flags", "marks"]
+
+    def h(n: int, e0: int, e1: int, a: int, form: int, inplace: bool) -> str:
+        assume(0 <= n <= 2)
+        e = [e0, e1]
+        o = NS.K2(nums=[e[t] for t in range(n)], opts={k: e[t] for t, k in enumerate(["a", "b"][:n])}, tags=[["a", "b"][t] for t in range(n)], vals={t for t in range(n)}, y=e0)
+        attr = pick(ATTRS, a)
+        which = pick(["with-UNCHANGED", "update-UNCHANGED", "with-if-false", "setattr-UNCHANGED"], form)
+        kw = {"_inplace": True} if inplace else {}
+        s0 = snap(o)
+        if which == "with-UNCHANGED":
+            r = getattr(o, f"with_{attr}")(UNCHANGED, **kw)
+        elif which == "update-UNCHANGED":
+            r = o.update(**{attr: UNCHANGED}, **kw)
+        elif which == "with-if-false":
+            r = getattr(o, f"with_{attr}")([] if attr in ("nums", "tags", "extras") else ({} if attr in ("opts", "flags") else set()), _if=False, **kw)
+        else:
+            assume(inplace)
+            setattr(o, attr, UNCHANGED)
+            r = o
+        tag = f"C05/K2/sentinel/{which}"
+        check(same(snap(o), s0), "a no-op changes nothing", f"{tag}/noop-changed-state", lambda: f"{attr}: {describe(s0)} -> {describe(snap(o))}")
+        check(same(snap(r), s0, ids=False), "a no-op changes nothing (state of the returned instance)", f"{tag}/noop-result-state", lambda: f"{attr}: receiver {describe(s0)}; returned {describe(snap(r))}")
+        check(r is o, "_if=False, MISSING or UNCHANGED make the call a no-op returning the receiver", f"{tag}/noop-returns-other", lambda: f"{attr}")
+        return "noop"
+
+    h.__name__ = f"sentinel_coll_{fam}"
+    return h
+
+
 def obligations(tier):
     obs = []
     T = 200 if tier == "quick" else 900
@@ -143,6 +181,7 @@ def obligations(tier):
             for attr in ("inner", "inner2"):
                 obs.append(Ob(f"C05.{fam}.K3.{opname}.{attr}", make_k3(fam, opname, attr), w3, f"K3.{attr} (nested spec value; inner has no default and may be unset, inner2 has a default factory); call form {opname}; symbolic nested values and flags", expect={"ok"}, timeout=T))
         obs.append(Ob(f"C05.{fam}.nested-kw", make_nested_kw(fam), [(2, 5, o_, f, ip) for o_ in (False, True) for f in range(4) for ip in (False, True)], "nested class with an attribute invalidated_by another: with_dep(**kw) / update_dep(**kw) / with_dep(dict) / Holder(dep=dict) on an unset nested attribute equal Dep(**kw) for both keyword orders; symbolic values", expect={"ok"}, timeout=T))
+        obs.append(Ob(f"C05.{fam}.K2.sentinel", make_sentinel_coll(fam), [(n, 1, 2, a, f, ip) for n in (0, 2) for a in range(7) for f in range(4) for ip in (False, True)], "K2 collection attributes (list/dict/set x default/factory/no default): with_<a>(UNCHANGED), update(<a>=UNCHANGED), with_<a>(v, _if=False), obj.<a> = UNCHANGED; content length <= 2 symbolic elements; _inplace symbolic", expect=set(), timeout=T))
         for opname in K5_OPS:
             obs.append(Ob(f"C05.{fam}.K5.{opname}", make_k5(fam, opname), w5, f"K5 prepared attribute; {opname}: the stored value is the PREPARED value", expect={"ok"}, timeout=T))
     return obs
